@@ -50,7 +50,7 @@ ASSUMPTIONS = [
     "models whose SDL the builder rejects (C11 findings) are exercised through the code route only",
 ]
 BOUNDS = {
-    "quick": {"features": 2, "generic_executor_upto": 1, "type_lookup_upto": 2, "disabled_upto": 2, "both_routes_upto": 2, "omitted_upto": 1},
+    "quick": {"features": 2, "generic_executor_upto": 1, "type_lookup_upto": 1, "disabled_upto": 1, "both_routes_upto": 2, "omitted_upto": 1},
     "thorough": {"features": 3, "generic_executor_upto": 2, "type_lookup_upto": 2, "disabled_upto": 2, "both_routes_upto": 2, "omitted_upto": 2},
 }
 TIME_CAP = {"quick": 150, "thorough": 1500}
